@@ -139,8 +139,8 @@ impl MandatoryHeaderExtensionManager for TableMgr {
     fn is_mandatory_header_id_known(&self, id: u16) -> MandatoryHeaderExt {
         match self.table.get(id) {
             Mand::Unknown => MandatoryHeaderExt::Unknown,
-            Mand::Final(n) => MandatoryHeaderExt::Final(n),
-            Mand::NonFinal(n) => MandatoryHeaderExt::NonFinal(n),
+            Mand::Final(n) => MandatoryHeaderExt::Final(n.min(255) as u8),
+            Mand::NonFinal(n) => MandatoryHeaderExt::NonFinal(n.min(255) as u8),
         }
     }
 }
